@@ -8,11 +8,13 @@ import hashlib
 import json
 import os
 import re
+import time
 
 from . import build, common, gram, proc
 from .prng import Rng
 
 PROP = "C06"
+SLOW_REFERENCE_S = 5.0
 SENTINEL = "#!sentinel: previous content of the destination\nkeep me\n"
 DEST = "out.script"
 INPUT = "in.usage"
@@ -428,8 +430,14 @@ def run_item(args):
     item, seed, tier = args
     rng = Rng(seed, "c06/item/%d" % item["id"])
     case = base_case(item)
+    t0 = time.time()
     R = proc.run_case(case)
-    out = {"id": item["id"], "kind": item["kind"], "runs": 1, "violations": [], "fired": {}, "configured": {}, "probes": {},
+    ref_wall = time.time() - t0
+    if ref_wall > SLOW_REFERENCE_S and item["fault_mode"] == "enumerate":
+        # a fault-free run this slow (the largest bundled example takes 0.2 s) is reported as an anomaly; enumerating hundreds
+        # of fault positions over it would stall the whole check, so its fault positions are sampled instead
+        item = dict(item, fault_mode="sample")
+    out = {"id": item["id"], "kind": item["kind"], "runs": 1, "slow_reference": int(ref_wall > SLOW_REFERENCE_S), "violations": [], "fired": {}, "configured": {}, "probes": {},
            "steps": len(R["events"]), "ref_exit": exit_desc(R), "plans": 0, "inside": 0, "after": 0, "cases": []}
     pr = out["probes"]
     v = judge_reference(item, R)
